@@ -160,7 +160,20 @@ func runC06(c *Ctx) {
 			if ci.Parent() != fn {
 				continue
 			}
-			c.obD("R06.3", ci, "only-admission-pronounces-415", fnName(fn) == "rt/middleware.validateContentType" || fnName(fn) == "(*rt/middleware.untypedParamBinder).Bind", "errors.InvalidContentType (415) is built by validateContentType only (and by the formData binder for a body that is no form): both gates refuse exactly the types the admission test refuses, ignoring parameters such as charset", "a 415 is built in "+fnName(fn))
+			allowed := func(n string) bool {
+				return n == "rt/middleware.validateContentType" || n == "(*rt/middleware.untypedParamBinder).Bind"
+			}
+			okCaller := allowed(fnName(fn))
+			if !okCaller && isTransparent(fn) {
+				// a helper the code was moved into: judged by the functions it is called from
+				okCaller = true
+				for _, rt := range rootsOf(fn) {
+					if !allowed(fnName(rt)) {
+						okCaller = false
+					}
+				}
+			}
+			c.obD("R06.3", ci, "only-admission-pronounces-415", okCaller, "errors.InvalidContentType (415) is built by validateContentType only (and by the formData binder for a body that is no form): both gates refuse exactly the types the admission test refuses, ignoring parameters such as charset", "a 415 is built in "+fnName(fn))
 		}
 	}
 	for _, g := range gates {
